@@ -276,6 +276,10 @@ CREATE TRIGGER IF NOT EXISTS vf_a_stage AFTER UPDATE OF status ON stage_executio
 CREATE TRIGGER IF NOT EXISTS vf_a_task AFTER UPDATE OF status ON task_executions
   WHEN OLD.status IS NOT NEW.status
   BEGIN INSERT INTO vf_audit(tbl,id,old,new,ctx) VALUES('task',NEW.id,OLD.status,NEW.status,vf_ctx()); END;
+CREATE TRIGGER IF NOT EXISTS vf_a_task_ins AFTER INSERT ON task_executions
+  BEGIN INSERT INTO vf_audit(tbl,id,old,new,ctx) VALUES('task_ins',NEW.id,NULL,NEW.status,vf_ctx()); END;
+CREATE TRIGGER IF NOT EXISTS vf_a_stage_ins AFTER INSERT ON stage_executions
+  BEGIN INSERT INTO vf_audit(tbl,id,old,new,ctx) VALUES('stage_ins',NEW.id,NULL,NEW.status,vf_ctx()); END;
 CREATE TRIGGER IF NOT EXISTS vf_a_wf AFTER UPDATE OF status ON pipeline_executions
   WHEN OLD.status IS NOT NEW.status
   BEGIN INSERT INTO vf_audit(tbl,id,old,new,ctx) VALUES('workflow',NEW.id,OLD.status,NEW.status,vf_ctx()); END;
